@@ -127,14 +127,16 @@ Supported ==
 \* what "fully honoured" means for an accepted result r
 Honoured(r) ==
   /\ r.qtype = qt
+  \* (an accepted call whose axis does not even index the shape honours nothing: decided before Dim is evaluated)
   /\ CASE fn = "quantize_weight" ->
+            /\ ValidIndex(shape, axis)
             /\ r.gs = gs
             /\ IF qt \in QT8 THEN (r.axis = axis /\ r.scales = Dim(shape, axis)) \/ (r.axis = NoAxis /\ Dim(shape, axis) = 1 /\ r.scales = 1)
                ELSE r.axis = axis
        [] fn = "quantize_activation" -> r.axis = NoAxis /\ r.scales = 1
        [] fn = "SymmetricQuantizer" ->
             IF axis = NoAxis THEN r.axis = NoAxis /\ r.scales = 1
-            ELSE r.axis = (IF axis = Rank(shape) - 1 THEN -1 ELSE axis) /\ r.scales = Dim(shape, axis)
+            ELSE ValidIndex(shape, axis) /\ r.axis = (IF axis = Rank(shape) - 1 THEN -1 ELSE axis) /\ r.scales = Dim(shape, axis)
        [] fn = "AffineQuantizer" -> r.axis = axis /\ r.gs = gs
 
 (* ---- state machine ---------------------------------------------------------------------------- *)
